@@ -767,7 +767,7 @@ for _p, _t in _EXTRA.items():
     PROPS[_p]["explanation"] += _t
 
 # the happens-before oracle (-hb) is on for every leg of the container harnesses whose element payload is announced
-for _p, _h in (("C09", "c09_queue"), ("C02", "c09_queue"), ("C13", "c13_pq"), ("C10", "c10_chm")):
+for _p, _h in (("C09", "c09_queue"), ("C02", "c09_queue"), ("C13", "c13_pq"), ("C10", "c10_chm"), ("C12", "c12_assoc")):
     for _l in PROPS[_p]["legs"]:
         if _l["harness"] == _h and "-hb" not in _l["flags"] and "-tso" not in _l["flags"] and _l["flags"]:
             _l["flags"].append("-hb")
